@@ -255,4 +255,43 @@ theorem metadata_sublist (em : List Submission) (sub : Submission) (h : sub ∈ 
       exact List.sublist_append_left _ _
     · exact List.Sublist.trans (ih e) (List.sublist_append_right _ _)
 
+/-! ### the accepted blocks are a subsequence of the offered ones -/
+
+/-- the blocks offered to the loop, in order -/
+def recvBlocks : List Op → List Block
+  | [] => []
+  | .recv b :: t => b :: recvBlocks t
+  | _ :: t => recvBlocks t
+
+theorem step_accepted (cfg : Cfg) (r : Run) (op : Op) :
+    (r.step cfg op).accepted = r.accepted ∨
+    ∃ b, op = .recv b ∧ (r.step cfg op).accepted = r.accepted ++ [b] := by
+  unfold Run.step
+  simp only
+  split
+  · rename_i b res _
+    split
+    · exact Or.inl rfl
+    · exact Or.inr ⟨b, rfl, rfl⟩
+  · exact Or.inl rfl
+  · exact Or.inl rfl
+  · exact Or.inl rfl
+
+theorem accepted_sublist (cfg : Cfg) (ops : List Op) (r : Run) :
+    ∃ X, (ops.foldl (Run.step cfg) r).accepted = r.accepted ++ X ∧ X.Sublist (recvBlocks ops) := by
+  induction ops generalizing r with
+  | nil => exact ⟨[], by simp, List.Sublist.refl _⟩
+  | cons op rest ih =>
+    obtain ⟨X, hX, hs⟩ := ih (r.step cfg op)
+    simp only [List.foldl_cons]
+    rcases step_accepted cfg r op with h | ⟨b, hop, h⟩
+    · refine ⟨X, by rw [hX, h], ?_⟩
+      cases op with
+      | recv b => exact List.Sublist.cons _ hs
+      | take => exact hs
+      | done => exact hs
+    · subst hop
+      refine ⟨b :: X, by rw [hX, h]; simp, ?_⟩
+      exact List.Sublist.cons_cons _ hs
+
 end Astria.Relayer
